@@ -329,7 +329,7 @@ def main():
             for rep in reports:
                 body = rep.split("==================")[0]
                 frames = re.findall(r"^\s+(/\S+\.go):\d+", body, re.M)
-                np_frames = [f for f in frames if "/repo/" in f and "zz_verif_" not in f]
+                np_frames = [f for f in frames if f.startswith(REPO + "/") and "zz_verif_" not in f]
                 if np_frames:
                     real.append(body)
             if real:
